@@ -1,3 +1,4 @@
+import TemplVerif.Generated.Skeletons
 import TemplVerif.Model.Css
 import TemplVerif.Spec.CssScan
 import TemplVerif.Proofs.Css
@@ -67,5 +68,15 @@ example : (sanitize (fun _ => true) [98, 97, 99, 107, 103, 114, 111, 117, 110, 1
 example : (sanitize (fun _ => true) [102, 111, 110, 116, 45, 102, 97, 109, 105, 108, 121] [34, 120, 34, 59, 32, 99, 111, 108, 111, 114, 58, 32, 114, 101, 100, 59, 32, 34, 121, 34]).2 = innocuousValue := by decide
 example : Css.declSafeWith [99, 111, 108, 111, 114] [114, 101, 100] [120, 58, 121] = true := by decide
 example : Css.declSafeWith [102, 111, 110, 116, 45, 102, 97, 109, 105, 108, 121] [34, 120, 34, 59, 32, 99, 111, 108, 111, 114, 58, 32, 114, 101, 100, 59, 32, 34, 121, 34] [] = false := by decide
+
+-- BEGIN transcription pins (written by tools/mkpins.py)
+/-- T1, transcription pins: the control structure and calls (extract/skeleton.go) of the functions whose models
+    were written by hand are the ones the models were transcribed from:
+      runtime.go SanitizeCSS
+    A change of what one of them calls or how it branches breaks this theorem; the check then searches for a
+    failing input and reports either that or `no-failing-input-found`. -/
+theorem C05_transcription_pinned :
+    Generated.skel_runtime_SanitizeCSS = 9378241437246278277 := by decide
+-- END transcription pins
 
 end TemplVerif.Props.C05
